@@ -2,6 +2,7 @@ mod decode;
 mod dest;
 mod driver;
 mod elfgen;
+mod elfref;
 mod evidence;
 mod gen;
 mod interpose;
